@@ -153,6 +153,28 @@ class Task:
         return '<Task in %s>' % P.pformat(self.owner)
 
 
+class Holder:
+    """unregistered; its __repr__ calls pformat(self.target) - a print nested inside the print that is
+    showing the Holder, of a container that is on the outer print's active path. The nested call is
+    recorded so that it can be compared with the very same call made while no print is running."""
+    depth = 0
+    record = []
+
+    def __init__(self):
+        self.target = None
+
+    def __repr__(self):
+        if Holder.depth >= 1:
+            return '<Holder>'
+        Holder.depth += 1
+        try:
+            text = P.pformat(self.target)
+        finally:
+            Holder.depth -= 1
+        Holder.record.append(text)
+        return '<Holder of %s>' % text.replace('\n', ' ')
+
+
 class HMut:
     """registered printer that reads (only reads) every container it is given"""
 
@@ -187,8 +209,8 @@ def build_corpus():
     dd = collections.defaultdict(list, a=[1])
     c = []
 
-    def add(name, family, value, kw=None, idfree=True):
-        c.append(dict(name=name, family=family, value=value, kw=kw or {}, idfree=idfree))
+    def add(name, family, value, kw=None, idfree=True, nested=None):
+        c.append(dict(name=name, family=family, value=value, kw=kw or {}, idfree=idfree, nested=nested))
 
     add('int', 'scalar', 1)
     add('bigint', 'scalar', 10 ** 30)
@@ -274,6 +296,10 @@ def build_corpus():
     add('tc_ok_harness', 'comment', trailing_comment(HTcOnce(False), 'good one'))
     add('tc_list_again', 'comment', trailing_comment([1, 2, 3], 'and more'))
     add('tc_set_again', 'comment', [trailing_comment({1}, 'a set'), trailing_comment((1, 2), 'a tuple')], dict(width=10))
+    holder = Holder()
+    holder.target = {'a': [1, holder], 'b': (2,)}
+    add('holder_target', 'reentrant', holder.target, idfree=True, nested=holder)
+    add('holder_in_list', 'reentrant', [holder.target, 3], idfree=True, nested=holder)
     task = Task()
     add('task_owner', 'reentrant', task.owner, idfree=False)
     add('task', 'reentrant', {'t': task}, idfree=False)
@@ -479,7 +505,20 @@ def call(i):
             t = P.pformat(it['value'], **it['kw'])
         except Exception as e:
             t = 'RAISED %s: %s' % (type(e).__name__, str(e)[:200])
-    return [t, snap(it['value']) == before]
+    ok = snap(it['value']) == before
+    nested_ok = True
+    if it.get('nested') is not None and not t.startswith('RAISED'):
+        # every pformat(target) that ran nested inside this print must equal the same call made now,
+        # with no print in progress (the harness' own depth guard put in the same state)
+        rec, Holder.record[:] = list(Holder.record), []
+        Holder.depth = 1
+        try:
+            standalone = P.pformat(it['nested'].target)
+        finally:
+            Holder.depth = 0
+        Holder.record[:] = []
+        nested_ok = bool(rec) and all(x == standalone for x in rec)
+    return [t, ok, nested_ok]
 
 
 # ------------------------------------------------------------------ generation / execution
@@ -516,7 +555,7 @@ def execute(spec):
             PP.pretty_dispatch._clear_cache()
             counters['dispatch_cache_cleared'] = counters.get('dispatch_cache_cleared', 0) + 1
             continue
-        t, same = call(op)
+        t, same, nested_ok = call(op)
         counters['calls'] = counters.get('calls', 0) + 1
         if done:
             res['nontrivial'] = True
@@ -528,6 +567,12 @@ def execute(spec):
             res.update({'class': 'input_mutated'}, signature=name,
                        detail=dict(item=name, position=k, history=[CORPUS[o]['name'] if o != 'cc' else o
                                                                      for o in spec['ops'][:k + 1]]))
+            return res
+        if not nested_ok:
+            res.update({'class': 'nested_call_differs'}, signature=name,
+                       detail=dict(item=name, position=k, note='a pformat call made from a __repr__ while an outer print '
+                                   'of the same container is in progress returned a different text than the same '
+                                   'call made with no print in progress', outer_text=t[:400]))
             return res
         if t != REF[op][0]:
             res.update({'class': 'history_dependent'}, signature=name,
